@@ -25,7 +25,8 @@ RULES["C02"] = (
 )
 ASSUMPTIONS["C02"] = [
     "the hash function itself (xxhash/blake2b) is trusted; the property is about memoisation",
-    "writes through a plain ndarray obtained by .view(np.ndarray)/np.asarray/memoryview are the library's documented "
+    "writes that deliberately go around the subclass - the unbound base-class method np.ndarray.__setitem__(x, ...) and "
+    "writes through a plain ndarray obtained by .view(np.ndarray)/np.asarray/memoryview/as_strided - are the library's documented "
     "escape hatch and are not in the domain (no subclass hook can observe them)",
     "writes into the user array a TrackedArray was created from (tracked_array shares memory with a contiguous input) "
     "are not writes through a view *of the tracked array* and are not in the domain",
@@ -435,6 +436,79 @@ def r_flat_held_across_hash(x, rs):
     it[0] = _val(x, rs)
 
 
+def _like(x, rs):
+    """a plain array of x's shape and dtype with fresh values"""
+    if x.dtype.kind == "f":
+        return rs.uniform(-99, 99, x.shape).astype(x.dtype)
+    return rs.randint(0, 200, x.shape).astype(x.dtype)
+
+
+def r_dot_out_positional(x, rs):
+    if x.ndim != 2 or x.dtype.kind != "f" or not x.flags.c_contiguous:
+        raise NotApplicable
+    np.dot(_like(x, rs), np.eye(x.shape[1], dtype=x.dtype) * 1.5, x)
+
+
+def r_concatenate_out_positional(x, rs):
+    if x.ndim == 0 or x.shape[0] < 2:
+        raise NotApplicable
+    a = _like(x, rs)
+    np.concatenate((a[:1], a[1:]), 0, x)
+
+
+def r_choose_out_positional(x, rs):
+    if x.ndim == 0:
+        raise NotApplicable
+    np.choose(np.zeros(x.shape, dtype=np.int64), [_like(x, rs)], x)
+
+
+def r_argmax_out_positional(x, rs):
+    if x.ndim != 1 or x.dtype != np.int64:
+        raise NotApplicable
+    np.argmax(rs.randint(0, 9, (x.shape[0], 4)), 1, x)
+
+
+def r_copyto_dst_kw(x, rs):
+    np.copyto(dst=x, src=_like(x, rs))
+
+
+def r_place_arr_kw(x, rs):
+    if x.size == 0:
+        raise NotApplicable
+    np.place(arr=x, mask=np.ones(x.shape, dtype=bool), vals=[_val(x, rs)])
+
+
+def r_plain_take_out(x, rs):
+    # a C method of ANOTHER array (plain) with the tracked array as its out=
+    if x.ndim == 0 or not x.flags.c_contiguous:
+        raise NotApplicable
+    _like(x, rs).take(np.arange(x.shape[0]), axis=0, out=x)
+
+
+def r_tracked_take_out(x, rs):
+    if x.ndim == 0 or not x.flags.c_contiguous:
+        raise NotApplicable
+    caching.tracked_array(_like(x, rs)).take(np.arange(x.shape[0]), axis=0, out=x)
+
+
+def r_plain_take_out_clip(x, rs):
+    if x.ndim == 0 or not x.flags.c_contiguous:
+        raise NotApplicable
+    _like(x, rs).take(np.arange(x.shape[0]), axis=0, out=x, mode="clip")
+
+
+def r_plain_compress_out(x, rs):
+    if x.ndim == 0 or not x.flags.c_contiguous:
+        raise NotApplicable
+    _like(x, rs).compress(np.ones(x.shape[0], dtype=bool), axis=0, out=x)
+
+
+def r_unbound_setitem(x, rs):
+    if x.ndim == 0 or x.shape[0] == 0:
+        raise NotApplicable
+    np.ndarray.__setitem__(x, 0, _val(x, rs))
+
+
 class NotApplicable(Exception):
     pass
 
@@ -501,6 +575,16 @@ ROUTES = {
     "np_put_partial_fail": r_np_put_partial_fail,
     "setitem_object_partial_fail": r_setitem_object_partial_fail,
     "flat_held_across_hash": r_flat_held_across_hash,
+    "dot_out_positional": r_dot_out_positional,
+    "concatenate_out_positional": r_concatenate_out_positional,
+    "choose_out_positional": r_choose_out_positional,
+    "argmax_out_positional": r_argmax_out_positional,
+    "copyto_dst_kw": r_copyto_dst_kw,
+    "place_arr_kw": r_place_arr_kw,
+    "plain_take_out": r_plain_take_out,
+    "tracked_take_out": r_tracked_take_out,
+    "plain_take_out_clip": r_plain_take_out_clip,
+    "plain_compress_out": r_plain_compress_out,
 }
 ROUTE_NAMES = sorted(ROUTES)
 
